@@ -213,6 +213,25 @@ func (ev *Evaler) AddModule(name string, mod *Ns) {
 	ev.modules[name] = mod
 }
 
+// Returns the loaded module with the given key, if there is one.
+func (ev *Evaler) getModule(key string) (*Ns, bool) {
+	ev.mu.RLock()
+	defer ev.mu.RUnlock()
+	ns, ok := ev.modules[key]
+	return ns, ok
+}
+
+// Removes the module with the given key, provided that it is still ns. The
+// check matters when the same module was evaluated concurrently more than once:
+// a failed evaluation must not unload the namespace installed by another one.
+func (ev *Evaler) deleteModule(key string, ns *Ns) {
+	ev.mu.Lock()
+	defer ev.mu.Unlock()
+	if ev.modules[key] == ns {
+		delete(ev.modules, key)
+	}
+}
+
 // ValuePrefix returns the prefix to prepend to value outputs when writing them
 // to terminal.
 func (ev *Evaler) ValuePrefix() string {
@@ -421,8 +440,8 @@ func (ev *Evaler) Check(src parse.Source, w io.Writer) (error, []string, error) 
 // errors. If w is not nil, deprecation messages are written to it.
 func (ev *Evaler) CheckTree(tree parse.Tree, w io.Writer) ([]string, error) {
 	ev.mu.RLock()
-	b, g, m := ev.builtin, ev.global, ev.modules
+	b, g, modules := ev.builtin, ev.global, mapKeys(ev.modules)
 	ev.mu.RUnlock()
-	_, autofixes, compileErr := compile(b.static(), g.static(), mapKeys(m), tree, w)
+	_, autofixes, compileErr := compile(b.static(), g.static(), modules, tree, w)
 	return autofixes, compileErr
 }
